@@ -2,16 +2,17 @@ import MJ.Model.Meta
 /-! Line driver for C18.
 
 stdin: one template per line, the real AST as prefix tokens (see `harness/src/bin/c18.rs`).
-stdout, per line:  `und=<names>\tnested=<dotted names>\tselfref=<names>\tmay=<names | SKIP:reason>`
+stdout, per line:  `und=<names>\tnested=<dotted names>\tmacros=<name:flag:closure;…>\tmay=<names | SKIP:reason>`
   * `und`     — `findUndeclared` of the model,
   * `nested`  — `findUndeclaredNested` of the model, rendered as dotted names,
-  * `selfref` — `selfRefsL` (the exception set of the known finding),
+  * `macros`  — for every macro and call block of the template: name, `callerRef`, `closureNames`
+                (what `compile_macro_expression` must emit: `BuildMacro` flags, `Enclose` names),
   * `may`     — union of `reads t cs 1` over the choice trees of the template (loops: no item /
                 all filtered / one iteration; macros: never called / called once; every block
                 additionally rendered once through a `self.name()` request at the very first
                 statement, where no frame binds anything), or `SKIP` when the template uses
-                something the semantics does not model (include/import/extends) or has too many
-                executions.  Re-entries of recursive loops are not enumerated: the frames of a
+                too many executions.  The look-ups of other templates (included, imported,
+                extended) are not part of `may`.  Re-entries of recursive loops are not enumerated: the frames of a
                 re-entry bind at least what the frames of an iteration bind.
 -/
 open MJ.Meta
@@ -19,7 +20,7 @@ open MJ.Meta
 structure P where
   toks : Array String
   pos : Nat := 0
-  /-- template contains a multi-template statement (include/import/extends) -/
+  /-- template contains a statement the driver does not know -/
   unmodelled : Bool := false
 
 abbrev PM := StateT P (Except String)
@@ -173,8 +174,15 @@ partial def pStmt : PM Stmt := do
   | "block" => do
       let name ← next
       pure (.block name (← pStmts))
-  -- include / import / from-import / extends: `track_walk` ignores them (apart from the import
-  -- aliases), the semantics does not model them
+  | "include" => do pure (.include (← pExpr))
+  | "extends" => do pure (.extends (← pExpr))
+  | "import" => do
+      let e ← pExpr; let t ← pExpr
+      pure (.importAs e t)
+  | "fromimport" => do
+      let e ← pExpr
+      let n ← nextNat
+      pure (.fromImport e (← times n pExpr))
   | "unsupported" => do markUnmodelled; pure .raw
   | other => throw s!"unsupported statement {other}"
 partial def pStmts : PM (List Stmt) := do
@@ -206,17 +214,17 @@ end
 mutual
 partial def enumCh : Stmt → List Ch
   | .forLoop _ _ _ _ body els =>
-      (enumList els).map (fun cs => Ch.mk 0 [cs] []) ++ (enumList els).map (fun cs => Ch.mk 1 [cs] [])
-        ++ (enumList body).map (fun cs => Ch.mk 2 [cs] [])
+      (enumList els).map (fun cs => Ch.mk 0 [cs] [] 0) ++ (enumList els).map (fun cs => Ch.mk 1 [cs] [] 0)
+        ++ (enumList body).map (fun cs => Ch.mk 2 [cs] [] 0)
   | .ifCond _ t f =>
-      (enumList f).map (fun cs => Ch.mk 0 [cs] []) ++ (enumList t).map (fun cs => Ch.mk 1 [cs] [])
-  | .withBlock _ body => (enumList body).map (fun cs => Ch.mk 0 [cs] [])
-  | .setBlock _ _ body => (enumList body).map (fun cs => Ch.mk 0 [cs] [])
-  | .autoEscape _ body => (enumList body).map (fun cs => Ch.mk 0 [cs] [])
-  | .filterBlock _ body => (enumList body).map (fun cs => Ch.mk 0 [cs] [])
-  | .macro _ _ _ body => Ch.mk 0 [] [] :: (enumList body).map (fun cs => Ch.mk 0 [cs] [])
-  | .callBlock _ _ _ _ body => Ch.mk 0 [] [] :: (enumList body).map (fun cs => Ch.mk 0 [cs] [])
-  | .block _ body => (enumList body).map (fun cs => Ch.mk 0 [cs] [])
+      (enumList f).map (fun cs => Ch.mk 0 [cs] [] 0) ++ (enumList t).map (fun cs => Ch.mk 1 [cs] [] 0)
+  | .withBlock _ body => (enumList body).map (fun cs => Ch.mk 0 [cs] [] 0)
+  | .setBlock _ _ body => (enumList body).map (fun cs => Ch.mk 0 [cs] [] 0)
+  | .autoEscape _ body => (enumList body).map (fun cs => Ch.mk 0 [cs] [] 0)
+  | .filterBlock _ body => (enumList body).map (fun cs => Ch.mk 0 [cs] [] 0)
+  | .macro _ _ _ body => Ch.mk 0 [] [] 0 :: (enumList body).map (fun cs => Ch.mk 0 [cs] [] 0)
+  | .callBlock _ _ _ _ body => Ch.mk 0 [] [] 0 :: (enumList body).map (fun cs => Ch.mk 0 [cs] [] 0)
+  | .block _ body => (enumList body).map (fun cs => Ch.mk 0 [cs] [] 0)
   | _ => [Ch.default]
 partial def enumList : List Stmt → List (List Ch)
   | [] => [[]]
@@ -231,11 +239,11 @@ def dedup (xs : List String) : List String :=
 /-- `self.name()` requests for every block of the template (at top level the running-loop list
 is empty, so block `i` is request target `i`) with every choice tree of its body -/
 def blockReqs (t : List Stmt) : List Ch :=
-  (blockBodiesL t).zipIdx.flatMap (fun (body, i) => (enumList body).map (fun cs => Ch.mk i [cs] []))
+  (blockBodiesL t).zipIdx.flatMap (fun (body, i) => (enumList body).map (fun cs => Ch.mk i [cs] [] 0))
 
 def withReqs (reqs : List Ch) : List Ch → List Ch
   | [] => []
-  | c :: cs => Ch.mk c.n c.subs reqs :: cs
+  | c :: cs => Ch.mk c.n c.subs reqs 0 :: cs
 
 def blocksCount (t : List Stmt) : Nat :=
   (blockBodiesL t).foldl (fun acc body => acc + countList body) 0
@@ -245,6 +253,30 @@ def mayReads (t : List Stmt) : List String :=
   dedup ((enumList t).flatMap (fun cs => reads t (withReqs reqs cs) 1))
 
 def dotted (l : Leaf) : String := ".".intercalate (l.1 :: l.2)
+
+mutual
+/-- every macro and call block: name, `callerRef`, `closureNames` -/
+partial def macrosOf : Stmt → List String
+  | .forLoop _ _ _ _ body els => macrosOfL body ++ macrosOfL els
+  | .ifCond _ t f => macrosOfL t ++ macrosOfL f
+  | .withBlock _ body => macrosOfL body
+  | .setBlock _ _ body => macrosOfL body
+  | .autoEscape _ body => macrosOfL body
+  | .filterBlock _ body => macrosOfL body
+  | .block _ body => macrosOfL body
+  | .macro name args defaults body =>
+      macroInfo name args defaults body :: macrosOfL body
+  | .callBlock _ _ args defaults body =>
+      macroInfo "caller" args defaults body :: macrosOfL body
+  | _ => []
+partial def macrosOfL : List Stmt → List String
+  | [] => []
+  | s :: ss => macrosOf s ++ macrosOfL ss
+partial def macroInfo (name : String) (args : List String) (defaults : List Expr)
+    (body : List Stmt) : String :=
+  let cl := (dedup (closureNames args defaults body)).toArray.qsort (· < ·) |>.toList
+  s!"{name}:{if callerRef args defaults body then 1 else 0}:{",".intercalate cl}"
+end
 
 def join (xs : List String) : String := " ".intercalate (dedup xs)
 
@@ -258,7 +290,7 @@ def handle (line : String) : String :=
       if p.unmodelled then "SKIP:unmodelled"
       else if countList t > cap || blocksCount t > cap then "SKIP:too-many-executions"
       else join (mayReads t)
-    s!"und={join (findUndeclared t)}\tnested={join ((findUndeclaredNested t).map dotted)}\tselfref={join (selfRefsL t)}\tmay={may}"
+    s!"und={join (findUndeclared t)}\tnested={join ((findUndeclaredNested t).map dotted)}\tmacros={";".intercalate (macrosOfL t)}\tmay={may}"
 
 partial def loop (h : IO.FS.Stream) (out : IO.FS.Stream) : IO Unit := do
   let line ← h.getLine
